@@ -3,6 +3,7 @@
 //! reports mismatches as NDJSON, or drives the real code and records NDJSON traces for TLC.
 #![allow(clippy::all)]
 mod util;
+mod c03;
 mod c12;
 mod c16;
 mod track;
@@ -18,6 +19,8 @@ fn main() {
     }
     let rest = &args[1..];
     let rc = match args[0].as_str() {
+        "c03-replay" => c03::replay(rest),
+        "c03-record" => c03::record(rest),
         "c12-replay" => c12::replay(rest),
         "c12-record" => c12::record(rest),
         "c16-utf8" => c16::utf8(rest),
